@@ -351,6 +351,13 @@ func NewManager(
 		return nil, err
 	}
 
+	// Heights below the initial height do not exist: nothing is pending for them. Without this a chain
+	// whose initial height is above 1 would try to fetch (and count as pending) blocks 1..initialHeight-1.
+	if genesis.InitialHeight > 1 {
+		pendingHeaders.setLastSubmittedHeaderHeight(ctx, genesis.InitialHeight-1)
+		pendingData.setLastSubmittedDataHeight(ctx, genesis.InitialHeight-1)
+	}
+
 	// If lastBatchHash is not set, retrieve the last batch hash from store
 	lastBatchDataBytes, err := store.GetMetadata(ctx, storepkg.LastBatchDataKey)
 	if err != nil && s.LastBlockHeight > 0 {
